@@ -12,7 +12,7 @@
                      computed on the examples (C14_roundtrip_examples) and checked on every float of every run. *)
 From Coq Require Import List ZArith NArith Bool Sorting.Sorted Sorting.Permutation.
 From GrolModel Require Import Ast Parser Values Cmp Maps SaveLoad.
-From GrolProofs Require Import SaveLoad_proofs SaveLoad_examples SaveLoad_roundtrip.
+From GrolProofs Require Import SaveLoad_proofs SaveLoad_examples SaveLoad_roundtrip SaveLoad_cycle.
 Import ListNotations.
 
 (* ------------------------------------------------------------------ statements *)
@@ -129,6 +129,45 @@ Proof. exact function_finding_cases_ok. Qed.
 Theorem C14_save_globals_example : save_globals_small.
 Proof. exact save_globals_small_ok. Qed.
 
+(* ------------------------------------------------------------------ the whole cycle: save, auto-load, save again *)
+(* For EVERY environment of data globals with distinct identifier names and values of the round-trip domain (good_binding:
+   good_name, in_domain, floats_conv dec_conv), every value-length limit and every list of extra identifiers:
+   auto-loading (bufio.ScanLines, one evaluation per line, through the lexer and parser models) the file that SaveGlobals
+   wrote binds exactly the bindings SaveGlobals kept - same names, equal values of the same type, in key order, nothing
+   else - and their number is the count SaveGlobals reported ... *)
+Theorem C14_autoload_restores_saved_data : forall maxlen extras env,
+  Forall (fun kv => good_binding kv = true) env -> NoDup (keys env) ->
+  forall file n, save_globals maxlen extras (data_store env) = Some (file, n) ->
+  autoload dec_conv file = saved_bindings maxlen extras env /\ n = List.length (saved_bindings maxlen extras env).
+Proof. exact cycle_loads_saved. Qed.
+
+(* ... saving the reloaded session again yields the same file (byte for byte, same count) ... *)
+Theorem C14_save_load_save : forall maxlen extras env,
+  Forall (fun kv => good_binding kv = true) env -> NoDup (keys env) ->
+  forall file n, save_globals maxlen extras (data_store env) = Some (file, n) ->
+  save_globals maxlen extras (data_store (autoload dec_conv file)) = Some (file, n).
+Proof. exact cycle_resave. Qed.
+
+(* ... and a global is back exactly when it is not a constant of the root environment and its printed value is not longer
+   than the limit: longer values are skipped as a whole, never restored in part *)
+Theorem C14_restored_iff_kept : forall maxlen extras env,
+  Forall (fun kv => good_binding kv = true) env -> NoDup (keys env) ->
+  forall file n, save_globals maxlen extras (data_store env) = Some (file, n) ->
+  forall k v, In (k, v) (autoload dec_conv file) <-> (In (k, v) env /\ kept maxlen extras (k, v) = true).
+Proof. exact cycle_membership. Qed.
+
+(* ... and so does any number of further cycles (save, fresh session, auto-load): the file never changes again *)
+Theorem C14_repeated_cycles_stable : forall maxlen extras env,
+  Forall (fun kv => good_binding kv = true) env -> NoDup (keys env) ->
+  forall n, save_globals maxlen extras (data_store (Nat.iter n (one_cycle maxlen extras) env)) =
+            save_globals maxlen extras (data_store env).
+Proof. exact cycles_stable. Qed.
+
+(* non-vacuity: a computed environment (nested map with a float and high bytes, an integer, the constant PI, a 52 byte
+   string under limit 40) satisfies the hypotheses; two bindings are restored and the file is stable *)
+Example C14_cycle_example : cycle_example_holds.
+Proof. exact cycle_env_ok. Qed.
+
 (* ------------------------------------------------------------------ the hypotheses are satisfiable *)
 Example C14_hypotheses_satisfiable :
   exists k v, good_name k = true /\ in_domain v = true /\ no_finite_float v = true /\
@@ -152,3 +191,8 @@ Print Assumptions C14_one_binding_per_line.
 Print Assumptions C14_function_fixed_cases.
 Print Assumptions C14_refuted_function_bodies.
 Print Assumptions C14_save_globals_example.
+Print Assumptions C14_autoload_restores_saved_data.
+Print Assumptions C14_save_load_save.
+Print Assumptions C14_restored_iff_kept.
+Print Assumptions C14_repeated_cycles_stable.
+Print Assumptions C14_cycle_example.
